@@ -181,6 +181,10 @@ func (env *Env) tr(e *E) Val {
 	switch e.K {
 	case "id":
 		if v, ok := env.vars[e.S]; ok {
+			if v.Loc != nil && v.Lazy {
+				// a captured / address-taken variable: its value in the state the expression is evaluated in
+				return Val{S: env.loadLoc(v.Loc), Sort: v.Sort, G: v.G}
+			}
 			return v
 		}
 		if v, ok := env.lookupPkgName(env.tpkg, e.S); ok {
@@ -663,6 +667,13 @@ func (env *Env) trCall(e *E) Val {
 	case "runeW":
 		d := env.view(arg(0))
 		return Val{S: "(runeW " + sArr(d.S) + " " + arg(1).S + " " + sHi(d.S) + ")", Sort: "Int"}
+	case "unbox": // unbox(i): the pointer stored in interface value i
+		x := arg(0)
+		env.m.extraSeen["(declare-fun unbox_Int (Int) Int)"] = env.m.extraSeen["(declare-fun unbox_Int (Int) Int)"] || func() bool {
+			env.m.extraDecl = append(env.m.extraDecl, "(declare-fun unbox_Int (Int) Int)")
+			return true
+		}()
+		return Val{S: "(unbox_Int " + x.S + ")", Sort: "Int"}
 	case "sameStr": // structural identity of two string values (same array window)
 		a, b := env.view(arg(0)), env.view(arg(1))
 		return Val{S: eq(a.S, b.S), Sort: "Bool"}
@@ -830,4 +841,34 @@ func (m *Mod) ensureSpecFunc(sf *SpecFunc, from *Env) {
 	}
 	cex := fmt.Sprintf("(%s sf_%s (%s) %s %s)", kw, sf.Name, strings.Join(qv, " "), rs, obody.S)
 	m.funcsDecl = append(m.funcsDecl, specDecl{proof, cex})
+}
+
+// loadLoc reads a location in env.st (spec-side twin of Gen.loadLoc).
+func (env *Env) loadLoc(l *Loc) string {
+	var base string
+	switch l.Kind {
+	case "local":
+		if env.st != nil {
+			base = env.st.locals[l.Alloc]
+		}
+		if base == "" {
+			sfail("local variable not available in this state")
+		}
+	case "field", "cell":
+		base = sel(env.heap(l.Comp), l.Base)
+	case "elem":
+		base = sel(sel(env.heap(l.Comp), l.Base), l.Idx)
+	case "global":
+		base = env.heap(l.Comp)
+	default:
+		sfail("cannot read location kind %s in a contract", l.Kind)
+	}
+	for _, p := range l.Path {
+		if p.Field >= 0 {
+			base = structGet(env.m.sortOf(p.T), fieldName(p.St, p.Field), base)
+		} else {
+			base = sel(base, p.Idx)
+		}
+	}
+	return base
 }
